@@ -172,6 +172,9 @@ def build_unit_text(unit, src):
         val, _ = L.lower(val, getattr(unit, 'const_rules', []))
         out.append('#define %s (%s)\n' % (macro, val.strip()))
     out.append('@@PRELUDE@@')
+    if getattr(unit, 'prelude_hook', None):
+        # declarations derived from the real text on this run (e.g. data members of a class that the recipe does not list)
+        out.append(unit.prelude_hook(src))
     # prototypes
     for f in unit.fns:
         out.append(f.csig + ';\n')
